@@ -47,7 +47,7 @@ func registerC20() {
 		Level: "exploration",
 		Rule: "the constant table is generated at check time from the types.go of the tree under test (go/parser; constants of the generated types declared in other files of the package are included) and compiled into the checker; a case is one (type, value): " +
 			"every constant of every generated type, every remaining value of 8- and 16-bit types, and for 32-bit types all neighbours of constants, every single-bit and two-bit value, every OR / sum / difference of two named values, plus 200000 PRNG values; " +
-			"before any sequential use in the worker process, 8 goroutines make the process's first String() calls of each type at the same moment; non-trivial: String() was called and compared (named value: one of the names without the type prefix; other value: Type(n)); the value checks are repeated in a binary built with GOARCH=386 (32-bit int) when the host can run it; plus regeneration of types_string.go with the repository's own stringer (verif-tagged fitgen; six runs with GOMAXPROCS default, 1, 3, 6, 7, 12, and one with a fitgen built for GOARCH=386) compared byte for byte",
+			"before any sequential use in the worker process, 8 goroutines make the process's first String() calls of each type at the same moment; non-trivial: String() was called and compared (named value: one of the names without the type prefix; other value: Type(n)); the value checks are repeated in a binary built with GOARCH=386 (32-bit int) when the host can run it; plus regeneration of types_string.go with the repository's own stringer (verif-tagged fitgen; six runs with GOMAXPROCS default, 1, 3, 6, 7, 12, and one with a fitgen built for GOARCH=386) compared byte for byte; plus a value-major pass: about 500 numbers each printed through every generated type in rotation (sequentially and from four goroutines), so that what one type printed for a number cannot leak into the next type's answer",
 		Assume:        []string{"Bool (hand-written in types_man.go, prints prefixed names by design) is reported separately and not judged by the generated-type rule"},
 		MinNontrivial: 100000,
 		WorkerProcs:   4,
@@ -208,6 +208,11 @@ func c20Main(c *lib.Ctx) {
 	c.Res.Extra["bool_strings"] = map[string]string{"0": fit.Bool(0).String(), "1": fit.Bool(1).String(), "255": fit.Bool(255).String(), "7": fit.Bool(7).String()}
 	c.Sample("constant", 1, map[string]interface{}{"type": c20Types[0].Name, "const": c20Types[0].Consts[0].Name, "value": c20Types[0].Consts[0].Value, "string": c20Types[0].Str(c20Types[0].Consts[0].Value)})
 	c20Storms(c)
+	if n, bad := c20Cross(func(m string) { c.Violation(nil, "%s", m) }); bad == 0 {
+		c.EvalN(int64(n))
+		c.NontrivialN(int64(n))
+		c.Count("values_printed_across_all_types_in_rotation", int64(n))
+	}
 	c20OtherArch(c)
 	c20Tables(c)
 }
@@ -441,6 +446,94 @@ func c20Storms(c *lib.Ctx) {
 	wg.Wait()
 }
 
+// c20Cross prints the same number through every generated type in rotation (value-major order: the
+// calls for one number are adjacent and differ only in the type), sequentially and then from four
+// goroutines that each walk the types in a different rotation. What one type printed for a number
+// must not leak into what the next type prints for it. report is called for at most 20 mismatches.
+func c20Cross(report func(string)) (checked, bad int) {
+	type tinfo struct {
+		t     c20Type
+		names map[uint64][]string
+		mask  uint64
+	}
+	var ts []tinfo
+	for _, t := range c20Types {
+		names := map[uint64][]string{}
+		for _, k := range t.Consts {
+			names[k.Value] = append(names[k.Value], strings.TrimPrefix(k.Name, t.Name))
+		}
+		mask := ^uint64(0)
+		if t.Bits < 64 {
+			mask = 1<<uint(t.Bits) - 1
+		}
+		ts = append(ts, tinfo{t, names, mask})
+	}
+	judge := func(ti tinfo, v uint64) string {
+		t := ti.t
+		v &= ti.mask
+		got := t.Str(v)
+		if ns, ok := ti.names[v]; ok {
+			for _, n := range ns {
+				if got == n {
+					return ""
+				}
+			}
+			return fmt.Sprintf("%s(%d).String() = %q right after other types printed the same number, want one of %q", t.Name, v, got, ns)
+		}
+		want := fmt.Sprintf("%s(%d)", t.Name, v)
+		if t.Signed {
+			want = fmt.Sprintf("%s(%d)", t.Name, int64(v<<uint(64-t.Bits))>>uint(64-t.Bits))
+		}
+		if got != want {
+			return fmt.Sprintf("%s(%d).String() = %q right after other types printed the same number, want %q", t.Name, v, got, want)
+		}
+		return ""
+	}
+	var vals []uint64
+	for v := uint64(0); v < 300; v++ {
+		vals = append(vals, v)
+	}
+	rng := lib.NewRand("C20.cross", 0)
+	for i := 0; i < 200; i++ {
+		vals = append(vals, rng.U64()>>uint(rng.Intn(64)))
+	}
+	vals = append(vals, 0xFFFF, 0xFFFE, 0x7FFF, 0x8000, 0xFFFFFFFF, 0xFFFFFFFE, 0x7FFFFFFF, 0x80000000, 65534, 1000, 10000)
+	var mu sync.Mutex
+	note := func(m string) {
+		mu.Lock()
+		defer mu.Unlock()
+		bad++
+		if bad <= 20 {
+			report(m)
+		}
+	}
+	for _, v := range vals {
+		for _, ti := range ts {
+			checked++
+			if m := judge(ti, v); m != "" {
+				note(m)
+			}
+		}
+	}
+	var wg sync.WaitGroup
+	for g := 0; g < 4; g++ {
+		wg.Add(1)
+		go func(g int) {
+			defer wg.Done()
+			for _, v := range vals {
+				for k := range ts {
+					if m := judge(ts[(k*(2*g+1)+g*17)%len(ts)], v); m != "" {
+						note(m)
+					}
+				}
+			}
+		}(g)
+	}
+	wg.Wait()
+	checked += 4 * len(vals) * len(ts)
+	return checked, bad
+}
+
 // c20Values is the body of the cross-architecture run (the binary built with GOARCH=386, where int
 // is 32 bits wide): every constant of every type, and for every type boundary values, neighbours of
 // constants and PRNG values, printed and compared. Prints one BAD line per mismatch (at most 20),
@@ -497,6 +590,8 @@ func c20Values() int {
 			check(rng.U64())
 		}
 	}
+	n, _ := c20Cross(func(m string) { fmt.Printf("BAD %s\n", m) })
+	checked += n
 	fmt.Printf("DONE %d\n", checked)
 	return 0
 }
